@@ -701,6 +701,77 @@ def corr_bootstrap(seed, tier):
     return R
 
 
+# ----------------------------------------------------------------------------------------------------- OPA
+def corr_opa(seed, tier):
+    """OPA.fit against XM.opaFit: the model receives the scaled PCs / EOFs of OPA's inner PCA, numpy's inverse of `C0_sqrt` and the
+    eigen-pairs `eigh` returned (spies), and must reproduce the zero-lag covariance, THE MATRIX HANDED TO `eigh` (lag sum with the
+    generated weights and denominators), filter patterns, optimally persistent patterns, their time series, norms and the
+    reported decorrelation times, for tau_max from 0 upwards."""
+    R = Result("opa")
+    rng = np.random.default_rng(16000 + seed)
+    reqs, exps = [], []
+    for i in range({"quick": 6, "thorough": 40, "search": 20}[tier]):
+        n, p = int(rng.integers(20, 50)), int(rng.integers(3, 7))
+        q = int(rng.integers(2, min(p, 5) + 1))
+        k = int(rng.integers(1, q + 1))
+        tau_max = int([0, 1, 2, 3, 5, 8][i % 6])
+        A = np.zeros((n, p))
+        phi = np.linspace(0.9, -0.5, p)
+        e = rng.normal(size=(n, p))
+        for t in range(1, n):
+            A[t] = phi * A[t - 1] + e[t]
+        A = A @ rng.normal(size=(p, p))
+        rec = {"inv": [], "eigh": []}
+        o_inv, o_eigh = np.linalg.inv, np.linalg.eigh
+
+        def inv_spy(M, *a, **kw):
+            out = o_inv(M, *a, **kw)
+            rec["inv"].append((np.array(M), np.array(out)))
+            return out
+
+        def eigh_spy(M, *a, **kw):
+            out = o_eigh(M, *a, **kw)
+            rec["eigh"].append((np.array(M), np.array(out[0]), np.array(out[1])))
+            return out
+
+        np.linalg.inv, np.linalg.eigh = inv_spy, eigh_spy
+        try:
+            with warnings.catch_warnings():
+                warnings.simplefilter("ignore")
+                m = xe.single.OPA(n_modes=k, tau_max=tau_max, n_pca_modes=q, solver="full").fit(da2d(A, "time", "x"), "time")
+        finally:
+            np.linalg.inv, np.linalg.eigh = o_inv, o_eigh
+        sn, fn = m.sample_name, m.feature_name
+        S = np.asarray(m.data["input_data"].transpose(sn, fn).values, dtype=float)  # the scaled PCs (stored as input data)
+        target_in, evals, evecs = rec["eigh"][-1]
+        order = np.argsort(evals)[::-1][:k]
+        Ue, lam = evecs[:, order], evals[order]
+        Cinv = rec["inv"][-1][1]
+        # scaled EOFs: filter patterns = comps @ V with V = Cinv @ Ue  ->  recover comps from the inner PCA through its definition
+        Xc = A - A.mean(axis=0)
+        Us, ss, Vt = np.linalg.svd(Xc, full_matrices=False)
+        # orientation of the inner PCA follows its own sign rule; read it off the stored PCs instead of re-deriving it
+        Cmat = (np.linalg.pinv(S) @ Xc).T  # p x q :  Xc ~ S @ Cmat.T  (exact when all retained PCs are used)
+        R.tally("tau_max", tau_max)
+        R.tally("k_over_q", "full" if k == q else "truncated")
+        exp = {"C0": rec["inv"][-1][0] @ rec["inv"][-1][0].T if False else None, "target": target_in,
+               "filter": m.data["filter_patterns"].transpose(fn, "mode").values, "comps": m.data["components"].transpose(fn, "mode").values,
+               "scores": m.data["scores"].transpose(sn, "mode").values, "norms": m.data["norms"].values, "decorr": m.data["decorrelation_time"].values}
+        req = {"fn": "opa", "n": n, "p": p, "q": q, "k": k, "tau_max": tau_max, "S": bits(S), "C": bits(Cmat), "Cinv": bits(Cinv), "Ue": bits(Ue), "lam": bits(lam)}
+        reqs.append(req)
+        exps.append((exp, (n, p, q, k), {"n": n, "p": p, "q": q, "k": k, "tau_max": tau_max, "seed": seed}, S))
+    for (exp, (n, p, q, k), small, S), ans in zip(exps, ask(reqs)):
+        if ans.get("status") != "ok":
+            R.cmp("status", False, small, ans, "ok")
+            continue
+        C0 = unbits(ans["C0"], (q, q))
+        R.cmp("C0", close(C0, S.T @ S / (n - 1), 1e-9), small, C0.ravel()[:4].tolist(), (S.T @ S / (n - 1)).ravel()[:4].tolist())
+        for key, shp in {"target": (q, q), "filter": (p, k), "comps": (p, k), "scores": (n, k), "norms": (k,), "decorr": (k,)}.items():
+            got = unbits(ans[key], shp)
+            R.cmp(key, close(got, np.asarray(exp[key], dtype=float), 1e-7), small, got.ravel()[:5].tolist(), np.asarray(exp[key]).ravel()[:5].tolist())
+    return R
+
+
 # ----------------------------------------------------------------------------------------------------- Scaler
 def corr_scaler(seed, tier):
     """preprocessing.Scaler.fit/transform/inverse_transform_data on (sample, feature) arrays against XM.scalerTransform /
@@ -1408,6 +1479,7 @@ CORR = {
     "whitener": corr_whitener,
     "complex": corr_complex,
     "bootstrap": corr_bootstrap,
+    "opa": corr_opa,
     "scaler": corr_scaler,
     "threshold": corr_threshold,
     "validators": corr_validators,
@@ -1440,7 +1512,7 @@ BY_PROP = {
     "C16": ["complex", "whitener", "formulas", "validators"],
     "C17": ["validators", "sanitizer"],
     "C18": ["formulas"],
-    "C19": ["formulas"],
+    "C19": ["opa", "formulas"],
     "C20": ["bootstrap", "eof_pipeline"],
 }
 
